@@ -27,6 +27,12 @@ def splitLF : Bytes → Bytes → List Bytes
   | [], cur => if cur.isEmpty then [] else [cur.reverse]
   | c :: rest, cur => if c = 10 then cur.reverse :: splitLF rest [] else splitLF rest (c :: cur)
 
+/-- strings.Split(s, "\n"): keeps empty fields, n LFs give n+1 fields -/
+def splitLFAllAux : Bytes → Bytes → List Bytes
+  | [], cur => [cur.reverse]
+  | c :: rest, cur => if c = 10 then cur.reverse :: splitLFAllAux rest [] else splitLFAllAux rest (c :: cur)
+def splitLFAll (b : Bytes) : List Bytes := splitLFAllAux b []
+
 def splitEq : Bytes → Option (Bytes × Bytes)
   | [] => none
   | c :: rest => if c = 61 then some ([], rest) else
